@@ -165,7 +165,7 @@ def kahn_rules(rep, prog, f, S):
                 ready_forms += [("atom", ("ext", "numpy.any", (both,), ()), False), ("atom", ("method", both, "any", (), ()), False),
                                 ("==0", (((("ext", "numpy.count_nonzero", (both,), ()),), 1),)), ("==0", (((("method", both, "sum", (), ()),), 1),))]
         okr = len(apps) == 1 and apps[0].args == [j] and apps[0].recv[0] == "mu" and apps[0].recv[2] == wl_ and apps[0].path and \
-            apps[0].path[-1][1] is True and npred(apps[0].path[-1][0], True) in ready_forms
+            npred(apps[0].path[-1][0], apps[0].path[-1][1]) in ready_forms
         if deg_ is not None:
             # in-degree form: exactly one `deg[j] -= 1` next to the one `A[i, j] = 0` (same conditions), and `deg[j] == 0` read after it
             dsts = [s_ for s_ in sts_all if s_.base[0] == "mu" and s_.base[2] == deg_]
@@ -174,7 +174,7 @@ def kahn_rules(rep, prog, f, S):
             if paired:
                 dupd = ("store", dsts[0].base, dsts[0].idx, dsts[0].value, "-")
                 okr = len(apps) == 1 and apps[0].args == [j] and apps[0].recv[0] == "mu" and apps[0].recv[2] == wl_ and apps[0].path and \
-                    apps[0].path[-1][1] is True and npred(apps[0].path[-1][0], True) in (("==0", (((("sub", dupd, j),), 1),)), ("==0", (((("sub", dupd, j),), -1),))) and \
+                    npred(apps[0].path[-1][0], apps[0].path[-1][1]) in (("==0", (((("sub", dupd, j),), 1),)), ("==0", (((("sub", dupd, j),), -1),))) and \
                     tuple(apps[0].path[:-1]) == tuple(dsts[0].path)
                 rep.check("KAHN.ready", okr, fwhere(f, apps[0].node if apps else None),
                           "in-degree form: deg = column counts of the 0/1 matrix, one `deg[j] -= 1` per removed edge into j, j joins the work list exactly when deg[j] reaches 0",
